@@ -110,7 +110,7 @@ pub fn build_plan(property: &str, tier: &str, seed: u64, ctx: &Arc<ExecCtx>) -> 
             }
             seeded(&mut plan, "c12-random", if quick { 2000 } else { 60_000 }, 12);
             plan.rule = "directed: every preference name (prefs.yaml + API defaults + two unknown names) x 12 value classes interleaved with set_mathml; API-set values across touch / rewrite / edit of the system and user prefs.yaml (with and without a user configuration directory) and across set_rules_dir; Language/LanguageAuto flows; rejected-then-accepted sequences. Plus seeded random histories of set_preference/get_preference over all names x value classes interleaved with set_mathml, getters, navigation and (35% of runs) preference-file events. After every step the full preference snapshot is compared with the reference model (read-back normalisations, only documented derivations may change), rejected sets must leave all preferences and all outputs unchanged, unknown names and wrong-kind values must be rejected, braille-/speech-/navigation-only preferences must leave the other outputs byte-identical. non-trivial = at least one set was accepted and one rejected; distinct = distinct trace hashes".into();
-            plan.required_probes = vec!["read_back_ok", "set_rejected", "frame_held", "rejected_set_left_outputs", "persisted_across_set_mathml", "prefs_file_event", "rejection_repeatable"].into_iter().map(String::from).collect();
+            plan.required_probes = vec!["read_back_ok", "set_rejected", "frame_held", "rejected_set_left_outputs", "persisted_across_set_mathml", "prefs_file_event", "rejection_repeatable", "prefs_equal_fresh_session"].into_iter().map(String::from).collect();
         }
         "C09" => {
             for t in props::c09::directed() {
